@@ -158,7 +158,11 @@ func (s *session) heartbeat() {
 	s.Lock()
 	defer s.Unlock()
 	if s.heartbeatCh != nil {
-		s.heartbeatCh <- true
+		select {
+		case s.heartbeatCh <- true:
+		default:
+			// A heartbeat is already pending: the timer will be reset when it is consumed
+		}
 	}
 }
 
